@@ -129,9 +129,13 @@ def is_id_not_strict(piece) -> bool:
     return True
 
 
+# probed once at import time (outside any tracing): CrossHair bypasses lru_cache under tracing
+ID_FIRST, ID_REST = id_strict_classes()
+RESERVED = reserved_words()
+
+
 def lexes_as_identifier(piece) -> bool:
-    first, rest = id_strict_classes()
-    return is_id_strict(piece, first, rest, reserved_words()) or is_id_not_strict(piece)
+    return is_id_strict(piece, ID_FIRST, ID_REST, RESERVED) or is_id_not_strict(piece)
 
 
 def is_string_token(piece) -> bool:
